@@ -57,6 +57,12 @@ Proof. reflexivity. Qed.
 Lemma flags_now : arc_ok = true /\ const_inline_present = true /\ double_sign_run_ok = true /\ double_exponent_ok = true.
 Proof. repeat split; reflexivity. Qed.
 
+(* the member an enum default BY NUMBER denotes is spelled by its own path -- the name the enum's definition gives it
+   (Context::rust_name: pilota.name, change_case, name-collision fallback) -- so that the emitted `Enum::NAME` is the constant
+   whose discriminant is the number: what arm 11 of Lit.lower assumes when it returns GEnum z *)
+Lemma enum_number_member_path_pinned : enum_number_member_path = true.
+Proof. reflexivity. Qed.
+
 Lemma lit_scalars_pinned :
   int_float_casts = [(CPF32, CPF32); (CPF64, CPF64); (CPOrderedF64, CPF64)] /\ int_bool_test = (true, 0) /\
   lazy_static_kinds = [CPString; CPLazyStaticRef; CPStaticRef; CPVec; CPMap; CPBTreeMap] /\
